@@ -109,7 +109,8 @@ def deep_eq(left, right, depth=0):  # pylint: disable=too-many-return-statements
     if isinstance(left, (bytes, bytearray)) and isinstance(right, (bytes, bytearray)):
         return bytes(left) == bytes(right)
     if isinstance(left, bool) or isinstance(right, bool):
-        return isinstance(left, bool) and isinstance(right, bool) and left == right
+        # 0 == False and 1 == True: equal as Python values, which is what "equal field by field" can demand
+        return isinstance(left, (bool, int)) and isinstance(right, (bool, int)) and left == right
     if isinstance(left, (int, float, str)) and isinstance(right, (int, float, str)):
         return left == right
     import datetime  # pylint: disable=import-outside-toplevel
